@@ -157,6 +157,9 @@ def check_rule(c):
                                  ', tree read from bracketed text with gf_split' if c.get('via') else ''),
                     'what': 'mark_heads_by_rules: ' + kind})
     try:
+        if c.get('pos', 0) % 2 == 1:
+            from ..bridge import reader_history
+            reader_history()        # another corpus was read with gf_separator '#' earlier in the process
         # collision forcing: the same labels are first marked under the OTHER preset (result discarded)
         transform.mark_heads_by_rules(build(mt), mark_heads_preset='ptb' if c['preset'] == 'negra' else 'negra')
         if c.get('pos', 0) % 2 == 0:
